@@ -9,6 +9,7 @@ MAX_CODE = 2**20
 
 # ---- code-vector pairs -----------------------------------------------------------------------------
 
+FAMILIES_EXTRA = ['highcard']
 FAMILIES = ['independent', 'function', 'noisy_copy', 'const_x', 'const_y', 'distinct_x', 'distinct_y',
             'dominant', 'few_large_many_single', 'row_permuted_copy', 'identical']
 
@@ -89,6 +90,10 @@ def build_family(g):
         Y = X[rng.permutation(n)]
     elif fam == 'identical':
         Y = X.copy()
+    elif fam == 'highcard':
+        Y = rng.integers(0, ky, size=n)
+        dep = rng.random(n) < 0.3
+        Y[dep] = (X[dep] * 7 + Y[dep] % 5) % ky      # some dependence on the target
     else:
         raise ValueError(fam)
     return Y.astype(np.int64), X.astype(np.int64)
@@ -117,8 +122,39 @@ def build_wide(w):
     return Y.astype(np.int64), X.astype(np.int64)
 
 
+@st.composite
+def highcard_pair(draw):
+    """Feature with more than 1024 distinct values, many of them repeated, against a target with 2-6 strata (n 3000-12000)."""
+    n = draw(st.integers(3000, 12000))
+    return {'gen': {'fam': 'highcard', 'n': n, 'kx': draw(st.integers(2, 6)), 'ky': draw(st.integers(1100, max(1101, n // 2))),
+                    'k': draw(st.integers(0, 2**32 - 1)), 'p': 0.0}}
+
+
+@st.composite
+def lagged_pair(draw):
+    """The two vectors are overlapping windows s[:-lag] and s[lag:] of ONE int32 buffer (e.g. a series against its lagged
+    self) with a non-zero minimum code: legitimate arguments whose memory overlaps."""
+    return {'lagged': {'n': draw(st.integers(2, 400)), 'lag': draw(st.integers(1, 12)), 'k': draw(st.integers(2, 6)),
+                       'min': draw(st.sampled_from([1, 3, 7, 1000])), 'seed': draw(st.integers(0, 2**32 - 1)),
+                       'period': draw(st.sampled_from([0, 0, 3, 5]))}}
+
+
+def build_lagged(g):
+    """-> (series buffer int32, Y view, X view)."""
+    rng = np.random.Generator(np.random.PCG64(int(g['seed'])))
+    n, lag = int(g['n']), int(g['lag'])
+    s = rng.integers(0, int(g['k']), size=n + lag)
+    if g.get('period'):
+        s = (s + (np.arange(n + lag) // int(g['period']))) % int(g['k'])      # serial dependence
+    s = (s + int(g['min'])).astype(np.int32)
+    return s, s[:-lag], s[lag:]
+
+
 def materialize_pair(case):
     """-> (Y, X) as int64 arrays of non-negative codes (< 2**20)."""
+    if 'lagged' in case:
+        _, Yv, Xv = build_lagged(case['lagged'])
+        return Yv.astype(np.int64), Xv.astype(np.int64)
     if 'wide' in case:
         Y, X = build_wide(case['wide'])
     elif 'gen' in case:
@@ -134,7 +170,9 @@ def relabel_spec():
     return st.one_of(
         st.just({'t': 'id'}),
         st.builds(lambda s: {'t': 'perm', 'k': s}, st.integers(0, 2**32 - 1)),
-        st.builds(lambda d: {'t': 'offset', 'd': d}, st.integers(1, 5000)),
+        st.builds(lambda d: {'t': 'offset', 'd': d}, st.one_of(st.integers(1, 5000), st.sampled_from([100000, 400000, 400000, 1000000]))),
+        st.builds(lambda s, b: {'t': 'lattice', 'step': s, 'base': b, 'top': True},
+                  st.sampled_from([256, 4096, 4096, 65536]), st.integers(0, 3)),
         st.just({'t': 'reverse'}),
         st.builds(lambda s: {'t': 'sparse', 'k': s}, st.integers(0, 2**32 - 1)),
     )
@@ -154,6 +192,17 @@ def apply_relabel(v, spec):
         return v + d
     if t == 'reverse':
         return used.max() - v
+    if t == 'lattice':
+        # codes base + i*step (powers of two apart), the largest used code mapped to 2^20 - 1: the arithmetic corner where
+        # packed joint keys such as x * (max(y) + 1) + y wrap
+        step, base = int(spec['step']), int(spec['base'])
+        if base + (len(used) - 1) * step >= MAX_CODE - 1:
+            step = max(1, (MAX_CODE - 2 - base) // max(1, len(used)))
+        new = [base + i * step for i in range(len(used))]
+        if spec.get('top') and len(used) > 1:
+            new[-1] = MAX_CODE - 1
+        lut = dict(zip(used.tolist(), new))
+        return np.fromiter((lut[x] for x in v.tolist()), dtype=np.int64, count=len(v))
     rng = np.random.Generator(np.random.PCG64(int(spec['k'])))
     if t == 'perm':
         new = rng.permutation(used)
